@@ -64,6 +64,21 @@ def affineOp (j : Json) : R Json := do
     | none => return Json.mkObj [("err", "GeometryError"), ("in_chart", inch)]
     | some as => return Json.mkObj [("affine", .arr (as.map outVec).toArray), ("in_chart", inch)]
 
+/-- `affine_coords(xs, chart_index=None)`: chosen chart and affine coordinates -/
+def autoOp {L : Type} [LinearOrder L] (absf : K → L) (j : Json) : R Json := do
+  let xs : Array (Array K) ← kArr2 (← field j "xs")
+  if xs.size = 0 then throw "empty"
+  match xs[0]!.size with
+  | 0 => throw "empty vector"
+  | n + 1 =>
+    let pts ← xs.toList.mapM (vecOfArr (n + 1))
+    match pts with
+    | [] => throw "empty"
+    | p₀ :: rest =>
+      match affineCoordsAuto? absf p₀ rest with
+      | none => return Json.mkObj [("err", "GeometryError"), ("chart", .num (JsonNumber.fromNat (autoChart absf p₀ rest).1))]
+      | some (as, c) => return Json.mkObj [("affine", .arr (as.map outVec).toArray), ("chart", .num (JsonNumber.fromNat c.1))]
+
 /-- `projective_coords(as, chart_index=c)` per point -/
 def projOp (j : Json) : R Json := do
   let as : Array (Array K) ← kArr2 (← field j "as")
@@ -194,6 +209,7 @@ def byField (hq : Handler) (hqi : Handler) : Handler := fun j => do
 
 def ops : List (String × Handler) :=
   [("c16.affine", byField (affineOp (K := ℚ)) (affineOp (K := QI))),
+   ("c16.auto", byField (autoOp (K := ℚ) (fun x => |x|)) (autoOp (K := QI) QI.normSq)),
    ("c16.proj", byField (projOp (K := ℚ)) (projOp (K := QI))),
    ("c16.cols", byField (colsOp (K := ℚ)) (colsOp (K := QI))),
    ("c16.linmap", byField (linmapOp (K := ℚ)) (linmapOp (K := QI))),
